@@ -13,17 +13,21 @@ fn run_arm(k: usize, nc: usize) -> (String, Res) {
     }
     let mut r = Res::new();
     reset();
-    let node = guard(move || {
+    let (node, text) = match std::panic::catch_unwind(move || {
         let t = invoke(k, nc);
         let mut o = String::new();
         dump(&t, &mut o);
-        o
-    });
+        (o, ts(&format!("{}", t)))
+    }) {
+        Ok(x) => x,
+        Err(_) => ("PANIC".to_string(), "PANIC".to_string()),
+    };
     r.g("node", node);
     let m = KINDS[k].len();
     r.g("counts", HITS.with(|h| tus(&h.borrow()[..m])));
     let ncc = if HAS_CHILDREN[k] { nc } else { 0 };
     r.g("child_counts", CHILD_HITS.with(|h| tus(&h.borrow()[..ncc])));
+    r.g("text", text);
     (req, r)
 }
 
